@@ -89,33 +89,51 @@ theorem lexTemplate_total (input : List Rune) (s : String) :
 theorem lexPath_total (input : List Rune) (s : String) :
     lexPath Gen.tokenCap input ≠ .panic s := lexPath_no_panic Gen.tokenCap input s
 
-/-- **Conflicts are rejected**: a binding whose end node already binds the same kind for
-another method is an error and nothing is stored. -/
-theorem conflict_rejected (n : Node) (verb : Bytes) (mid : Nat) (mk : Unit → Outcome Meth) (e : Meth)
+/-- **Conflicts are rejected**: a binding (whose own selectors resolve) whose end node already
+binds the same kind for another method is an error and nothing is stored. -/
+theorem conflict_rejected (n : Node) (verb : Bytes) (mid : Nat) (mk : Unit → Outcome Meth) (m e : Meth)
+    (hmk : mk () = .ok m)
     (hex : (if verb == starVerb then n.all else lookupMeth n.methods verb) = some e)
     (hne : e.mid ≠ mid) : register n verb mid mk = .err "duplicate-rule" := by
   obtain ⟨segs, methods, all, vars⟩ := n
   simp only [Node.all, Node.methods] at hex
-  simp only [register, hex]
+  simp only [register, hmk, registerCore, hex]
   have : (e.mid != mid) = true := by simpa using hne
   simp [this]
 
-/-- … while re-declaring a method's own binding is accepted and changes nothing. -/
-theorem redeclare_noop (n : Node) (verb : Bytes) (mid : Nat) (mk : Unit → Outcome Meth) (e : Meth)
+/-- … while re-declaring a method's own binding (with selectors that resolve) is accepted and
+changes nothing. -/
+theorem redeclare_noop (n : Node) (verb : Bytes) (mid : Nat) (mk : Unit → Outcome Meth) (m e : Meth)
+    (hmk : mk () = .ok m)
     (hex : (if verb == starVerb then n.all else lookupMeth n.methods verb) = some e)
     (heq : e.mid = mid) : register n verb mid mk = .ok n := by
   obtain ⟨segs, methods, all, vars⟩ := n
   simp only [Node.all, Node.methods] at hex
-  simp only [register, hex]
+  simp only [register, hmk, registerCore, hex]
   have : (e.mid != mid) = false := by simpa using heq
   simp [this]
+
+/-- **An unresolvable body / response_body selector is rejected wherever the rule ends** — also
+when its pattern is already bound to the same method (then the rule would otherwise be a
+silent no-op) or to another one. -/
+theorem bad_selector_rejected_everywhere (n : Node) (verb : Bytes) (mid : Nat) (mk : Unit → Outcome Meth) (k : String)
+    (hmk : mk () = .err k) : register n verb mid mk = .err k := by
+  simp only [register, hmk]
+
+/-- contrast — the order before fix `4bb7939`: the slot was looked at first, so a rule with a
+selector that does not resolve was accepted when its pattern was already the method's. -/
+theorem slot_first_accepts_a_bad_selector (segs : List (Bytes × Node)) (vars) (e : Meth) (verb : Bytes)
+    (hv : (verb == starVerb) = false) :
+    registerCore (.mk segs [(verb, e)] none vars) verb e.mid (fun _ => .err "body-field")
+      = .ok (.mk segs [(verb, e)] none vars) := by
+  simp [registerCore, hv, lookupMeth]
 
 /-- a verb rule and a '*' rule on the same path do not conflict (either order). -/
 theorem star_and_verb_coexist (segs : List (Bytes × Node)) (methods) (vars) (m0 : Meth) (verb : Bytes)
     (hv : (verb == starVerb) = false) (hnone : lookupMeth methods verb = none) (mid : Nat) (m : Meth) :
     register (.mk segs methods (some m0) vars) verb mid (fun _ => .ok m)
       = .ok (.mk segs (upsertMeth methods verb m) (some m0) vars) := by
-  simp [register, hv, hnone]
+  simp [register, registerCore, hv, hnone]
 
 /-- nested variables are rejected with an error (never the historical panic). -/
 theorem nested_variable_rejected (pre post : List Tok) (inner : Tok)
@@ -215,3 +233,5 @@ end Larking.Props.C16
 #print axioms Larking.Props.C16.grammar_templates_never_crash
 #print axioms Larking.Props.C16.grammar_rules_accepted
 #print axioms Larking.Props.C16.grammar_binding_accepted_on_empty
+#print axioms Larking.Props.C16.bad_selector_rejected_everywhere
+#print axioms Larking.Props.C16.slot_first_accepts_a_bad_selector
